@@ -50,6 +50,7 @@ type Scenario struct {
 	// Params is a free-form description recorded in replays/evidence.
 	Params map[string]any
 	al     *Alphabet
+	Tags   map[string]bool
 }
 
 // Transition is one explored edge, handed to monitors.
